@@ -717,3 +717,69 @@ func SortedFuncs(m map[*ssa.Function]bool) []*ssa.Function {
 	sort.Slice(out, func(i, j int) bool { return FuncName(out[i]) < FuncName(out[j]) })
 	return out
 }
+
+// RequestTimeRoots returns the entry points of request-time code: the
+// transcoder's ServeHTTP plus every method of the root-package types that are
+// handed to user handlers (request body adapters, response writer and its body
+// adapters), which the handler - code outside the module - calls.
+func (p *Prog) RequestTimeRoots() []*ssa.Function {
+	if r, ok := p.memo["rtroots"]; ok {
+		return r.([]*ssa.Function)
+	}
+	var roots []*ssa.Function
+	seen := map[*ssa.Function]bool{}
+	add := func(f *ssa.Function) {
+		if f != nil && !seen[f] && f.Blocks != nil {
+			seen[f] = true
+			roots = append(roots, f)
+		}
+	}
+	nt := p.Func("NewTranscoder")
+	if nt != nil && nt.Signature.Results().Len() > 0 {
+		add(p.MethodOf(nt.Signature.Results().At(0).Type(), "ServeHTTP"))
+	}
+	handed := []string{"Read", "Write", "Close", "Header", "WriteHeader", "Flush", "Unwrap", "FlushError", "ReadFrom", "WriteTo"}
+	scope := p.Root.Pkg.Scope()
+	for _, name := range scope.Names() {
+		tn, ok := scope.Lookup(name).(*types.TypeName)
+		if !ok || p.isTestFile(tn.Pos()) {
+			continue
+		}
+		n, ok := tn.Type().(*types.Named)
+		if !ok {
+			continue
+		}
+		if _, isIface := n.Underlying().(*types.Interface); isIface {
+			continue
+		}
+		pt := types.NewPointer(n)
+		isAdapter := false
+		for _, m := range []string{"Read", "Write"} {
+			if f := p.MethodOf(pt, m); f != nil && f.Signature.Params().Len() == 1 {
+				if sl, ok := f.Signature.Params().At(0).Type().(*types.Slice); ok {
+					if b, ok := sl.Elem().(*types.Basic); ok && b.Kind() == types.Uint8 {
+						isAdapter = true
+					}
+				}
+			}
+		}
+		if !isAdapter {
+			continue
+		}
+		for _, m := range handed {
+			add(p.MethodOf(pt, m))
+		}
+	}
+	p.memo["rtroots"] = roots
+	return roots
+}
+
+// RequestTimeReach is Reach over RequestTimeRoots.
+func (p *Prog) RequestTimeReach() map[*ssa.Function]bool {
+	if r, ok := p.memo["rtreach"]; ok {
+		return r.(map[*ssa.Function]bool)
+	}
+	r := p.Reach(p.RequestTimeRoots()...)
+	p.memo["rtreach"] = r
+	return r
+}
